@@ -1,7 +1,8 @@
 (* C10 Semantic-action protocol: once per match, accumulate/reset/return, sugar forms. *)
 From LexVerif Require Import Base CharClass RangeMap Regex Spec SpecExec LexSpec Nfa Dfa NfaToDfa NfaSem Codegen
      Runtime ScanIface RulesetSem Driver SpecDef ClassAlgProofs RuntimeProofs RuntimeLemmas ScanOkProofs
-     RulesetSemProofs LexSpecProofs LexSpecFacts EndToEnd Harness.
+     RulesetSemProofs LexSpecProofs LexSpecFacts EndToEnd EndToEndModel Instance Harness.
+From LexVerif.Gen Require Import GenTables GenConsts.
 
 (* the user state is read and written only by actions *)
 Theorem c10_user_state_only_actions : forall (width : N -> N) (tab_width : N) (T E U : Type) (prog : program)
